@@ -54,6 +54,13 @@ pub fn representatives(c: &Coin, strict: bool) -> Vec<Vec<u8>> {
         v.push(witness(2, &filler(17, 40)));
         v.push(witness(16, &filler(18, 2)));
         v.push(multisig(1, &[&ka], 1));
+        // every key count a multisig script may have (1..16), as 1-of-n and n-of-n, and one key too many
+        for n in 2..=17u8 {
+            let keys: Vec<Vec<u8>> = (0..n).map(|i| if i % 3 == 0 { key65(20 + i) } else { key33(20 + i) }).collect();
+            let refs: Vec<&[u8]> = keys.iter().map(|k| k.as_slice()).collect();
+            v.push(multisig(1, &refs, n.min(16)));
+            v.push(multisig(n.min(16), &refs, n.min(16)));
+        }
         v.push(vec![0x50]); // unspendable
         v.push(vec![0xff, 0x01]);
         v.push(vec![0x6a]); // bare OP_RETURN
